@@ -154,7 +154,8 @@ def run_case(case, on_point=None, trace_protocols=True, extra_trace=(), post=Non
   if trace_protocols:
     files.append(b.protocols.__file__)
   files += list(extra_trace)
-  sched = Sched(case.get('switches', ()), files, start=T0)
+  sched = Sched(case.get('switches', ()), files, start=T0,
+                opcode_files=[cachemod.__file__] if case.get('opcodes') else ())
   choices = list(case.get('choices', ()))
 
   def fake_choice(seq):
@@ -179,18 +180,6 @@ def run_case(case, on_point=None, trace_protocols=True, extra_trace=(), post=Non
     run.cache = cache
     if setup is not None:
       setup(run, sched)
-    # sequential history before the two threads start (so that a single preemption of the writer's first drain
-    # already meets a non-empty cache): completed stores of the receiving thread
-    for spec in case.get('prefill_stores', ()):
-      op = Op(0, 'store', list(spec))
-      op.time = sched.now
-      op.inv = sched.tick()
-      try:
-        cache.store(spec[0], (spec[1], spec[2]))
-      except Exception as e:  # noqa: judged by the property's oracle
-        op.exc = e
-      op.resp = sched.tick()
-      run.history[0].append(op)
     current_op = [None, None]
 
     def overflow_handler():
@@ -200,6 +189,20 @@ def run_case(case, on_point=None, trace_protocols=True, extra_trace=(), post=Non
       if current_op[idx] is not None:
         current_op[idx].overflow += 1
     b.events.cacheOverflow.handlers.append(overflow_handler)
+    # sequential history before the two threads start (so that a single preemption of the writer's first drain
+    # already meets a non-empty cache): completed stores of the receiving thread
+    for spec in case.get('prefill_stores', ()):
+      op = Op(0, 'store', list(spec))
+      op.time = sched.now
+      op.inv = sched.tick()
+      current_op[0] = op
+      try:
+        cache.store(spec[0], (spec[1], spec[2]))
+      except Exception as e:  # noqa: judged by the property's oracle
+        op.exc = e
+      current_op[0] = None
+      op.resp = sched.tick()
+      run.history[0].append(op)
 
     handler = None
 
